@@ -728,6 +728,18 @@ class Interp:
                     return AFunc(m)
             return TOP
         if isinstance(obj, AExt):
+            mod = self.p.modules.get(obj.name) if obj.recv is None else None
+            if mod is not None:
+                # an attribute of an in-repo module (`errors.SomeError`, `schema.Node`)
+                res = self.p.resolve_global(mod, attr)
+                if res[0] == 'class':
+                    return AClass(res[1])
+                if res[0] == 'func':
+                    return AFunc(res[1])
+                if res[0] == 'value':
+                    return self.eval(res[2], {'__module__': res[1], '__unit__': None, '__closure__': None})
+                if res[0] == 'module':
+                    return AExt(res[1])
             return AExt(f'{obj.name}.{attr}', recv=obj.recv)
         if isinstance(obj, (dict, set, list)):
             return AExt(f'builtins.{type(obj).__name__}.{attr}', recv=obj)
